@@ -12,7 +12,8 @@ import (
 //
 //   - an enum with keyword-named and underscore-named values and the int32 extremes,
 //   - a struct with a field of every value kind (all primitives, string, a local enum) and a second
-//     struct nesting the first one and, where the file imports one, an imported struct,
+//     struct nesting the first one and, where the file imports one, an imported struct; a third
+//     struct with bytes, string, any and message fields,
 //   - a message with one field of every kind and one list field of every element kind (primitives,
 //     string, bytes, any, message, local and imported enum / struct / message, itself), whose field
 //     names include every contextual keyword and whose tags include 1, 255, 256 and 65535.
@@ -104,6 +105,18 @@ func GenCoverage(r *hx.Rand, module string) *Bundle {
 		ns.SFields = append(ns.SFields, SField{Name: "message", Ty: Ty{Base: local("string")}})
 		f.Defs = append(f.Defs, ns)
 
+		// struct with the variable-size builtin kinds
+		xs := Def{Kind: "struct", Name: name("CovX")}
+		xs.SFields = []SField{
+			{Name: "id", Ty: Ty{Base: local("int32")}},
+			{Name: "data", Ty: Ty{Base: local("bytes")}},
+			{Name: "name", Ty: Ty{Base: local("string")}},
+			{Name: "any", Ty: Ty{Base: BaseT{Kind: BAny}}},
+			{Name: "message", Ty: Ty{Base: BaseT{Kind: BAnyMessage}}},
+			{Name: "last", Ty: Ty{Base: local("bool")}},
+		}
+		f.Defs = append(f.Defs, xs)
+
 		// message with every field kind and every list element kind
 		mn := name("CovM")
 		var bases []BaseT
@@ -111,7 +124,7 @@ func GenCoverage(r *hx.Rand, module string) *Bundle {
 			bases = append(bases, local(pn))
 		}
 		bases = append(bases, local("string"), local("bytes"), BaseT{Kind: BAny}, BaseT{Kind: BAnyMessage},
-			local(en.Name), local(st.Name), local(ns.Name), local(mn))
+			local(en.Name), local(st.Name), local(ns.Name), local(xs.Name), local(mn))
 		for _, k := range []string{"enum", "struct", "message"} {
 			if bt, ok := pickImported(k); ok {
 				bases = append(bases, bt)
@@ -125,7 +138,9 @@ func GenCoverage(r *hx.Rand, module string) *Bundle {
 			}
 		}
 		n := 2 * len(bases)
+		// (leading / trailing / doubled underscores and upper case go through the name mapping)
 		names := append([]string(nil), semFieldNames...)
+		names = append(names, "_lead", "trail_", "dbl__under", "MixedCase", "UPPER", "snake_case_name")
 		for k := len(names); k < n; k++ {
 			names = append(names, fmt.Sprintf("f%d_x", k))
 		}
